@@ -233,7 +233,7 @@ PROPS = {
         "components": ["aggregator", "plumbing"],
         "required_theorems": ["PgBifrost.Props.C19.agg_conservation", "PgBifrost.Props.C19.agg_exactly_one_window",
                               "PgBifrost.Props.C19.agg_hist_minmaxavg", "PgBifrost.Props.C19.agg_key_inj_table",
-                              "PgBifrost.Props.C19.agg_key_collision_witness", "PgBifrost.Props.C19.aggregate_as_in_source", "PgBifrost.Props.C19.aggregator_steps_as_in_source"],
+                              "PgBifrost.Props.C19.agg_key_collision_witness", "PgBifrost.Props.C19.bucket_contains_timestamp", "PgBifrost.Props.C19.bucket_unique", "PgBifrost.Props.C19.aggregate_as_in_source", "PgBifrost.Props.C19.aggregator_steps_as_in_source"],
         "assumptions": ["KeyInjOn: the separator-less aggregate key is injective on the identities used (proved for the generated "
                         "table of every statistic pg-bifrost emits; arbitrary colliding identities are outside the property)",
                         "int64 arithmetic modelled by Int (no wrap-around); int64(float64(sum)/float64(n)) = trunc(sum/n), exact for |sum| < 2^53",
